@@ -1,13 +1,15 @@
 use percent_encoding::{AsciiSet, CONTROLS};
 
 /// The [path percent-encode set] as defined in the WHATWG URL standard + `/` since
-/// we always encode single segments of the path.
+/// we always encode single segments of the path + `%` so that percent-decoding the
+/// segment gives back the original string.
 ///
 /// [path percent-encode set]: https://url.spec.whatwg.org/#path-percent-encode-set
 pub(crate) const PATH_PERCENT_ENCODE_SET: &AsciiSet = &CONTROLS
     .add(b' ')
     .add(b'"')
     .add(b'#')
+    .add(b'%')
     .add(b'<')
     .add(b'>')
     .add(b'?')
